@@ -365,7 +365,10 @@ def gen_forged(rng, enc, steps=50):
             st = rng.choice(["-", "0:-1", ",".join("0:-1" for _ in range(players + 1))])
             L.append(packet(nxt, [good_input()], st=st, dr=rng.choice([0, 0, 1]), ack=rng.choice([-1, -1, 0, max(0, sent - 1), sent, 500])))
         elif r < 0.41:    # negative start frame
-            L.append(packet(rng.choice([-1, -2, I32_MIN]), [good_input()], ack=rng.choice([-1, -1, 0, max(0, sent - 1), sent, 500])))
+            # ... also with the disconnect flag set and with any number of statuses: the flag exempts a packet from the
+            # status-count check only, never from this one
+            L.append(packet(rng.choice([-1, -2, I32_MIN]), [good_input()], ack=rng.choice([-1, -1, 0, max(0, sent - 1), sent, 500]),
+                            dr=rng.choice([0, 1]), st=rng.choice([None, None, "-", "0:-1"])))
         elif r < 0.46:    # start frame at the top of the i32 range (frame arithmetic overflows)
             L.append(packet(rng.choice([I32_MAX, I32_MAX - 1]), [good_input(), good_input(), good_input()][:rng.choice([1, 2, 3])],
                             base=[0] * (4 * nh)))
